@@ -449,7 +449,7 @@ fn loop_cases(thorough: bool) -> Vec<loopdrv::LoopCase> {
                     let budgets: &[Option<u64>] = if s.is_none() { &[None, Some(20), Some(60)] } else { &[None] };
                     for overhead in [0u64, 3] {
                         for alloc in [0usize, 2, 5, 3, 6] {
-                            for counters in 0..7 {
+                            for counters in 0..10 {
                               for &budget in budgets {
                                 if !thorough && counters >= 4 && alloc != 0 {
                                     continue;
@@ -486,6 +486,20 @@ fn loop_cases(thorough: bool) -> Vec<loopdrv::LoopCase> {
                                         // per-input counters of all four kinds; chars and cycles also inherited
                                         c.input_counters = if entry >= 2 { 15 } else { 0 };
                                         c.inherited = [None, Some(21), Some(22), None];
+                                    }
+                                    7 => {
+                                        // Bencher::counter over an inherited constant of its kind (another value);
+                                        // the other inherited kinds stay
+                                        c.inherited = [Some(11), Some(12), None, Some(14)];
+                                        c.bencher_counters = vec![(0, 5)];
+                                    }
+                                    8 => {
+                                        // two Bencher::counter calls of one kind in a row: the later one counts
+                                        c.bencher_counters = vec![(3, 5), (3, 9)];
+                                    }
+                                    9 => {
+                                        c.inherited = [Some(11), None, Some(13), None];
+                                        c.bencher_counters = vec![(0, 5), (1, 3), (0, 7)];
                                     }
                                     4 => {
                                         // counter() then input_counter() of the same kind
@@ -706,7 +720,7 @@ fn main() {
     r.set_bounds(json!({
         "large_collections": "n in 6..=40, 63, 64, 99, 100, 101, 128 (thorough: ..=101, 200, 255..257, 511..513, 1000, 1024) x {ascending via strides, descending, organ pipe, every stride permutation} x {distinct, pairwise tied}",
         "injected": {"durations_ps": DURS.iter().map(|d| d.to_string()).collect::<Vec<_>>(), "max_len": if cli.thorough {6} else {5}, "all_permutations_n": if cli.thorough {"6..=9"} else {"6, 7"}, "sample_sizes": SIZES, "tally_presence_masks": MASKS, "counter_modes": if cli.thorough {9} else {3}},
-        "loop": {"entries": 5, "cost_scripts": 7, "sample_counts": [0,1,2,3,4], "sample_sizes": [1,2,3,"tuned"], "overheads_ps": [0,3], "alloc_scripts": 3, "counter_setups": 6}
+        "loop": {"entries": 5, "cost_scripts": 7, "sample_counts": [0,1,2,3,4], "sample_sizes": [1,2,3,"tuned"], "overheads_ps": [0,3], "alloc_scripts": 3, "counter_setups": 10}
     }));
     r.emit();
 }
